@@ -732,3 +732,65 @@ func ruleIndexSeekAgreement(c *Ctx, r *Reporter) {
 	r.Check(stepsBack, cons, c.FnPos(seek), "the index holds each block's first key and the reader positions on the last entry <= target",
 		"the index holds each block's FIRST key, and the reader positions the index with a lower-bound seek ("+strings.Join(methods, ", ")+") and loads that block: for a target that is not the first key of a block this is the block AFTER the one that contains it; the search then only moves forward. In a table with several blocks a point lookup finds only the first key of each block, and a range scan skips the tail of the block its start key lies in")
 }
+
+// ruleMemTableGetTable: MemTable.Get answers (nil,false) for no entry, (nil,true) for a deletion marker and (value,true) for a
+// value — on the lock-free immutable arm exactly as on the locked mutable arm (decision table over both arms).
+func ruleMemTableGetTable(c *Ctx, r *Reporter) {
+	r.Rule("memtable-get-table", 6)
+	fn := c.Func("pkg/memtable", "MemTable", "Get")
+	find := c.Func("pkg/memtable", "SkipList", "Find")
+	imm := c.Func("pkg/memtable", "MemTable", "IsImmutable")
+	kDel := c.Const("pkg/memtable", "TypeDeletion")
+	kVal := c.Const("pkg/memtable", "TypeValue")
+	if fn == nil || find == nil || imm == nil || kDel == nil || kVal == nil {
+		r.Unresolved("memtable.MemTable.{Get,IsImmutable} / SkipList.Find / TypeDeletion / TypeValue", "not found")
+		return
+	}
+	del, _ := constantInt(kDel)
+	val, _ := constantInt(kVal)
+	for _, immutable := range []bool{true, false} {
+		for _, row := range []struct {
+			name      string
+			entry     int64
+			vt        int64
+			wantFound bool
+			wantNil   bool
+		}{{"no entry", NilRank, val, false, true}, {"deletion marker", 7, del, true, true}, {"value", 7, val, true, false}} {
+			one := int64(1)
+			sc := &Scenario{Terms: map[string]int64{}, Bools: map[string]bool{}, Vals: map[ssa.Value]int64{}, BoolVals: map[ssa.Value]bool{}, DefaultInt: &one}
+			AllInstrs(fn, false, func(_ *ssa.Function, ins ssa.Instruction) {
+				switch x := ins.(type) {
+				case *ssa.Call:
+					switch x.Call.StaticCallee() {
+					case find:
+						sc.Vals[x] = row.entry
+					case imm:
+						sc.BoolVals[x] = immutable
+					}
+				case *ssa.UnOp:
+					if x.Op == token.MUL {
+						if fa, ok := x.X.(*ssa.FieldAddr); ok && fieldName(fa) == "valueType" {
+							sc.Vals[x] = row.vt
+						}
+					}
+				}
+			})
+			res := EvalPath(fn.Blocks[0], nil, sc, nil)
+			cons := fmt.Sprintf("memtable.MemTable.Get[%s,%s]", map[bool]string{true: "immutable", false: "mutable"}[immutable], row.name)
+			if res.Err != "" || res.Ret == nil || len(res.RetVals) != 2 || res.RetVals[1].Kind != "bool" {
+				r.Undecided(cons, c.FnPos(fn), "row not decidable: "+res.Err)
+				continue
+			}
+			gotNil := res.RetVals[0].Kind == "int" && res.RetVals[0].I == NilRank
+			gotFound := res.RetVals[1].B
+			okRow := gotFound == row.wantFound && gotNil == row.wantNil
+			if !row.wantNil && !gotNil && !strings.HasSuffix(res.RetPaths[0], ".value") {
+				okRow = false
+			}
+			r.Check(okRow, cons, c.InsPos(res.Ret), fmt.Sprintf("returns (%s, %v)", map[bool]string{true: "nil", false: res.RetPaths[0]}[gotNil], gotFound),
+				fmt.Sprintf("for %s on the %s arm Get returns (%s, %v); required (%s, %v): %s", row.name, map[bool]string{true: "immutable (lock-free)", false: "mutable"}[immutable],
+					map[bool]string{true: "nil", false: res.RetPaths[0]}[gotNil], gotFound, map[bool]string{true: "nil", false: "the entry's value"}[row.wantNil], row.wantFound,
+					"a deletion marker must count as found-but-deleted, otherwise the lookup falls through to older tables and a deleted key comes back with its old value"))
+		}
+	}
+}
